@@ -19,7 +19,7 @@ SHRINK_KEYS = ('bundles',)
 SHRINK_KINDS = ('list',)
 ASSUMPTIONS = [
     'for a creation time later than the virtual clock (sender clock ahead) only the well-formedness of the age block is judged',
-    'the bundle fits the route MTU when one is configured (fragmentation is C05)',
+    'with a route MTU below the bundle size (mtu "frag") every fragment must show the received primary block fields and the first fragment the forwarded block set; how the ranges are cut and what later fragments carry is C05',
 ]
 
 NODE = 'dtn://fwd/'
